@@ -102,7 +102,6 @@ func TestVerifC15Consumers(t *testing.T) {
 			cs = vc15gen.VC15Gen(r, false)
 		}
 		msg := cs.Msg
-		stale := vc15gen.VC15StaleA(msg)
 		allClean := true
 		for _, b := range cs.Clean {
 			allClean = allClean && b
@@ -182,9 +181,6 @@ func TestVerifC15Consumers(t *testing.T) {
 				"desc":       map[string]any{"tags": cs.Tags, "rcode": msg.Rcode, "sections": []int{len(msg.Question), len(msg.Answer), len(msg.Ns), len(msg.Extra)}, "lib_ok": werr == nil && !wpanic, "len": len(want)},
 				"nontrivial": wroteBytes && len(slots) > 0 || (fellBack && direct && !internal),
 			}
-			if stale {
-				line["fkey"] = "stale-a-rdata"
-			}
 			if len(fails) > 0 {
 				line["go_fail"] = strings.Join(fails, " | ")
 			}
@@ -233,9 +229,6 @@ func TestVerifC15Consumers(t *testing.T) {
 			"k":          fmt.Sprintf("fingerprint/valid=%v", ok),
 			"desc":       map[string]any{"tags": cs.Tags, "rcode": msg.Rcode, "ns": len(msg.Ns), "lib_ok": werr == nil && !wpanic},
 			"nontrivial": ok && len(proof.Ns) > 0,
-		}
-		if stale {
-			line["fkey"] = "stale-a-rdata"
 		}
 		if len(fails) > 0 {
 			line["go_fail"] = strings.Join(fails, " | ")
